@@ -913,6 +913,15 @@ impl SvgElement {
             "point" | "text" => {
                 let x = self.attrs.get("x").unwrap_or(&zstr);
                 let y = self.attrs.get("y").unwrap_or(&zstr);
+                // SVG allows a list of positions for the glyphs of a <text>
+                // ("10 20 30"): the first of them is the anchor.
+                let first = |v: &'_ String| -> String {
+                    match v.split(|c: char| c == ',' || c.is_ascii_whitespace()).find(|i| !i.is_empty()) {
+                        Some(item) if self.name == "text" && passthrough(v) => item.to_owned(),
+                        _ => v.clone(),
+                    }
+                };
+                let (x, y) = (&first(x), &first(y));
                 if passthrough(x) || passthrough(y) {
                     return Ok(None);
                 }
